@@ -68,12 +68,10 @@ def tr_init(props=None):
     those units assume nothing else about the recorder's past -- which is the history-independence sentence of C09"""
     repo = Repo(); ex = lib.install(Exec(repo, None))
 
-    def l_random(ex_, s, pos, kw, node, star, dstar):
-        return [(s, ('val', s.alloc('Random')))]
-    ex.lib['random.Random'] = l_random
     m, cls, node, info = repo.find('playback.tape_recorder:TapeRecorder.__init__')
     st = St(); o = st.alloc('TapeRecorder'); cas = st.sym_obj('cassette', 'TapeCassette', False)
-    st.push({'self': o, 'tape_cassette': cas, 'random_seed': fresh('seed')}, None, (m.name, cls, node)); obl = []; n = 0
+    seed = fresh('seed'); st.assume(z3.Or(seed == NONE, Val.is_i(seed)))
+    st.push({'self': o, 'tape_cassette': cas, 'random_seed': seed}, None, (m.name, cls, node)); obl = []; n = 0
     for s, oc in ex.block(node.body, st):
         n += 1; cnt = s.rd(o, '_invoke_counter'); po = s.rd(o, '_playback_outputs'); tl = s.rd(o, '_thread_locals')
         obl.append(Obl('C09/TapeRecorder.__init__/a_new_recorder_is_idle', ('C09', 'C17'), s,
@@ -81,4 +79,9 @@ def tr_init(props=None):
                               s.rd(o, '_force_sample') == B(False), s.rd(o, 'recording_enabled') == B(False), s.rd(o, 'tape_cassette') == cas,
                               TYP(Val.addr(cnt)) == K('Counter'), s.g['ddom'][Val.addr(cnt)] == z3.K(Val, False), z3.Length(s.seq(po)) == 0,
                               TYP(Val.addr(tl)) == K('threadlocal'), s.g['ddom'][Val.addr(s.rd(o, '_classes_recording_params'))] == z3.K(Val, False)), oc))
+        # C17 "reproducible from the seed": the recorder's own generator is a new Random whose stream is the one of the given seed -- EVERY
+        # given seed, 0 included (None: the library's entropy seeding)
+        r_ = s.rd(o, '_random')
+        obl.append(Obl('C17/TapeRecorder.__init__/own_random_stream_from_the_given_seed', 'C17', s,
+                       z3.And(Val.is_ref(r_), Val.addr(r_) >= BASE, TYP(Val.addr(r_)) == K('Random'), s.rd(r_, 'seed') == seed), oc))
     return [info], obl, {'paths': n, 'forks': ex.forks}
